@@ -158,9 +158,9 @@ impl C01 {
                 ctx.cov.set("opcode-forms", form);
                 ctx.cov.set("ordered-opcode-pairs", mix(*prev, form));
                 *prev = form;
-                for a in &info.acc[..info.nacc] {
+                for (i, a) in info.acc[..info.nacc].iter().enumerate() {
                     if *a >= 0xEE && *a <= 0xF1 {
-                        ctx.cov.probe(&format!("access@0x{:02X}", a));
+                        ctx.cov.probe(&format!("{}@0x{:02X}", ["fetch", "read", "write"][info.acc_kind[i] as usize % 3], a));
                     }
                 }
                 if info.interrupted {
@@ -656,6 +656,11 @@ impl Check for C01 {
                     let mut c = p.clone();
                     c.prologue.clear();
                     out.push(Scn::Plane(c));
+                    for i in 0..p.prologue.len() {
+                        let mut c = p.clone();
+                        c.prologue.remove(i);
+                        out.push(Scn::Plane(c));
+                    }
                 }
                 for i in 0..8 {
                     if p.regs[i] != 0 {
@@ -702,7 +707,7 @@ impl Check for C01 {
         }
     }
     fn must_fire(&self, _tier: Tier) -> Vec<String> {
-        vec!["mul-div-executed".into()]
+        ["mul-div-executed", "fetch@0xEF", "read@0xEF", "write@0xEF", "read@0xF0", "write@0xF0", "read@0xEE", "write@0xEE", "interrupt-entry"].iter().map(|s| s.to_string()).collect()
     }
     fn exhaustive_dims(&self, _tier: Tier) -> Vec<String> {
         vec![
